@@ -1365,6 +1365,11 @@ class Data(BaseCartesianData):
                                            for key, value in self._components.items())
             changed = True
 
+            # derived components that are computed from the old ID follow it
+            for comp in self._components.values():
+                if isinstance(comp, DerivedComponent):
+                    comp.link.replace_ids(old, new)
+
         try:
             index = self._pixel_component_ids.index(old)
             self._pixel_component_ids[index] = new
